@@ -351,7 +351,10 @@ def rule_path_domain(ctx, r):
     # folding the pure validator over a finite witness set
     interp = PureInterp(ctx)
     want = {"a.txt": None, "dir/a b.txt": None, "": "InvalidPathError", "a\nb": "InvalidPathError", "x\n": "InvalidPathError", "\tx": "InvalidPathError",
-            "x\r\n": "InvalidPathError", "\x07": "InvalidPathError", "ü.txt": None}
+            "x\r\n": "InvalidPathError", "\x07": "InvalidPathError", "ü.txt": None,
+            # characters that are NOT control characters (category Cc) although str.isprintable() is false for them or they look odd: legal in file names
+            "Screen Shot 2024-01-01 at 10.00.00\u202fAM.png": None, "a\u00a0b.txt": None, "\u3000x": None, "x\u200d.txt": None, "caf\u0065\u0301.txt": None,
+            "x\x7f": "InvalidPathError", "x\x85y": "InvalidPathError"}
     got = {}
     for s_, w in want.items():
         try:
@@ -440,6 +443,10 @@ def run(ctx):
     # ... and the job runs there: every cluster script changes into the target's own working directory before the spec (the schedulers start jobs elsewhere)
     from .shared import import_rules
     import_rules(ctx, r1, "C10", only={"R1"}, select=lambda c: "::cd" in c)
+    # ... the local pool starts the task's process in the working directory it was sent (whether or not that lies inside the project the pool serves)
+    from .evalhelpers import cached_witness, report_witness, task_coroutine_witness
+    report_witness(r1, "src/gwf/backends/local.py::Scheduler.try_handle_task::cwd", "src/gwf/backends/local.py:1", cached_witness(ctx, "task", task_coroutine_witness),
+                   "the task's process is started with cwd = the target's working directory", select=lambda d: "working directory" in d)
     r2 = ctx.rule("R2", "nothing but the workflow-file search (and init) reads the invoking directory; state paths derive from the workflow file's directory", min_instances=10)
     rule_cwd_taint(ctx, r2)
     rule_norm_path(ctx, r2)
